@@ -414,6 +414,10 @@ class SymInt:
     def binop(op, a, b):
         if isinstance(a, SymBool) or isinstance(b, SymBool):
             raise Unsupported("arith on symbolic bool")
+        if op in ("^", "&", "|") and (isinstance(a, ByteInt) or isinstance(b, ByteInt)) and all(
+            isinstance(x, ByteInt) or (isinstance(x, int) and not isinstance(x, bool) and x >= 0) for x in (a, b)
+        ):
+            return ByteInt.bitop(op, a, b)
         alo, ahi = SymInt.rng(a)
         blo, bhi = SymInt.rng(b)
         if op == "+":
@@ -579,6 +583,49 @@ def sym_real(name):
     e = z3.Real(name)
     Ctx.cur.inputs[name] = e
     return SymReal(e)
+
+
+class ByteInt(SymInt):
+    """non-negative integer given by its little-endian byte cells (int.from_bytes of a long byte string). Bitwise
+    operations with another ByteInt / non-negative int and to_bytes work cell by cell; the single wide bit-vector term
+    is only built if some other operation asks for it. Same semantics as SymInt — an exact representation change that
+    keeps `int.from_bytes(a) ^ int.from_bytes(b)` over kilobytes of data linear."""
+
+    def __init__(self, le_cells):
+        self.le_cells = list(le_cells)
+        self._e = None
+        self.lo, self.hi = 0, (1 << (8 * len(self.le_cells))) - 1
+
+    @property
+    def e(self):
+        if self._e is None:
+            cs = [z3.BitVecVal(c, 8) if isinstance(c, int) else c for c in reversed(self.le_cells)]
+            self._e = z3.ZeroExt(1, z3.Concat(*cs) if len(cs) > 1 else cs[0])
+        return self._e
+
+    @staticmethod
+    def cells_of(v, n):
+        if isinstance(v, ByteInt):
+            return v.le_cells + [0] * (n - len(v.le_cells))
+        return list(v.to_bytes(n, "little"))
+
+    @staticmethod
+    def bitop(op, a, b):
+        na = len(a.le_cells) if isinstance(a, ByteInt) else (a.bit_length() + 7) // 8
+        nb = len(b.le_cells) if isinstance(b, ByteInt) else (b.bit_length() + 7) // 8
+        n = max(na, nb, 1)
+        out = []
+        for x, y in zip(ByteInt.cells_of(a, n), ByteInt.cells_of(b, n)):
+            if isinstance(x, int) and isinstance(y, int):
+                out.append({"^": x ^ y, "&": x & y, "|": x | y}[op])
+            else:
+                xe = z3.BitVecVal(x, 8) if isinstance(x, int) else x
+                ye = z3.BitVecVal(y, 8) if isinstance(y, int) else y
+                r = z3.simplify({"^": xe ^ ye, "&": xe & ye, "|": xe | ye}[op])
+                out.append(r.as_long() if z3.is_bv_value(r) else r)
+        if all(isinstance(c, int) for c in out):
+            return int.from_bytes(bytes(out), "little")
+        return ByteInt(out)
 
 
 def concretize(v, what="int"):
@@ -1102,6 +1149,8 @@ def m_int_from_bytes(data, byteorder="big", *, signed=False):
         cells = cells[::-1]
     if all(isinstance(c, int) for c in cells):
         return int.from_bytes(bytes(cells), "big", signed=signed)
+    if not signed and len(cells) > 8:
+        return ByteInt(cells[::-1])
     e = z3.Concat(*[z3.BitVecVal(c, 8) if isinstance(c, int) else c for c in cells]) if len(cells) > 1 else cells[0]
     n = 8 * len(cells)
     if signed:
@@ -1123,6 +1172,11 @@ def m_int_to_bytes(v, length=1, byteorder="big", *, signed=False):
         raise TypeError("descriptor 'to_bytes' requires an int")
     if length < 0:
         raise ValueError("length argument must be non-negative")
+    if isinstance(v, ByteInt) and not signed:
+        cs = v.le_cells
+        if length >= len(cs) or all(isinstance(c, int) and c == 0 for c in cs[length:]):
+            cells = (cs + [0] * (length - len(cs)))[:length]
+            return SymBytes(cells[::-1] if byteorder == "big" else cells)
     if signed:
         if length == 0:
             if truth(SymInt.cmp("!=", v, 0)):
